@@ -341,6 +341,10 @@ func c11Override(p *Prog, r *Report) {
 	lcs := levelChecks(fn)
 	site := "override.patchVulns"
 	nsinks := 0
+	// the scan may live in a helper that received the key and the level by value: a local that
+	// only holds a copy stands for what it was copied from
+	cellThroughCopies = true
+	defer func() { cellThroughCopies = false }()
 	forEachInstr(fn, func(b *ssa.BasicBlock, _ int, in ssa.Instruction) {
 		c, ok := in.(*ssa.Call)
 		if !ok || !c.Call.IsInvoke() || c.Call.Method.Name() != "PatchRequirement" {
@@ -404,9 +408,15 @@ func c11Override(p *Prog, r *Report) {
 				bal, _ := bc.root.(*ssa.Alloc)
 				okBase := bal != nil && strings.HasSuffix(bc.path, ".Version")
 				srcOK := false
-				if cal, isA := cellOf(l.val).root.(*ssa.Alloc); isA && bal != nil {
-					for _, s := range storesTo(cal) {
-						ec := cellOf(s)
+				if bal != nil {
+					cands := []cell{cellOf(l.val)}
+					if cal, isA := cands[0].root.(*ssa.Alloc); isA {
+						cands = nil
+						for _, s := range storesTo(cal) {
+							cands = append(cands, cellOf(s))
+						}
+					}
+					for _, ec := range cands {
 						if ex, ok := ec.root.(*ssa.Extract); ok && ec.idx != nil {
 							if gc, ok := ex.Tuple.(*ssa.Call); ok && refOf(gc.Common()).Name == "getVersionsGreater" && len(gc.Call.Args) == 3 && cellOf(gc.Call.Args[2]).root == ssa.Value(bal) {
 								srcOK = true
